@@ -48,7 +48,8 @@ fn main() {
     let scale: f64 = std::env::var("VERIF_SCALE").ok().and_then(|s| s.parse().ok()).unwrap_or(1.0);
     let verif_dir = std::env::var("VERIF_DIR").unwrap_or_else(|_| "/verif".to_string());
     trap::install_quiet_panic_hook();
-    let ctx = Ctx { prop: prop.clone(), tier, seed, threads, replay, scale };
+    let pure_only = std::env::var("VERIF_PURE_ONLY").map(|v| v == "1").unwrap_or(false);
+    let ctx = Ctx { prop: prop.clone(), tier, seed, threads, replay, scale, pure_only };
     let started = std::time::Instant::now();
     let Some((meta, total)) = mon::dispatch(&ctx) else {
         eprintln!("unknown property {prop}");
